@@ -4,5 +4,5 @@
 set -e
 cd "$(dirname "$0")/../lean"
 /venv/bin/python ../harness/py2lean.py || true   # a translator failure is reported by the checks, not by setup
-lake build zvdriver
+lake build zvdriver || true                       # the checks rebuild it (with the pristine generated files if need be)
 lake build ZepidVerif || true                    # a broken proof is reported by the check of its property
